@@ -1,4 +1,4 @@
-(** Model of src/newtype_macros.rs: the restricted integer types, the five conversion macros,
+(** Model of src/newtype_macros.rs: the restricted integer types, the conversion macros,
     the checked constructor [new] (per feature configuration), FromStr and Display.
     The *instances* (which types, which conversions, which cfg guards) are data: the tables of
     Generated/NewtypeTables.v, regenerated from the source on every run, are passed in as
@@ -32,6 +32,11 @@ Definition wrap (r : Z * Z) (z : Z) : Z :=
 (** features the std harness build enables in addition to the crate's defaults *)
 Definition serde_features : list string := ["serde"; "serde_repr"].
 
+(** the numeric types in the order of the harness's conversion grid (harness/src/probe.rs) *)
+Definition grid_types : list string :=
+  ["U4"; "U7"; "U14"; "Channel"; "KeyNumber"; "ControllerNumber";
+   "u8"; "u16"; "u32"; "u64"; "u128"; "usize"; "i8"; "i16"; "i32"; "i64"; "i128"; "isize"].
+
 Definition newtypes := list (string * string * N).
 
 Fixpoint nt_lookup (defs : newtypes) (name : string) : option (string * N) :=
@@ -61,14 +66,15 @@ Definition conv_apply (defs : newtypes) (e : conv_kind * string * string) (x : Z
   match repr_range defs dst, type_range defs dst with
   | Some rr, Some (_, dmax) =>
       match k with
-      | FromNN | FromNP | FromPN => Some (Some (wrap rr x))
-      | TryNN | TryPN =>
-          (* is_valid: 0 <= number && number <= max, compared in the source's primitive type *)
+      | CFrom =>
+          (* the infallible macros: [$dst(value as $repr)] / [value.0 as $dst] -- an [as] cast *)
+          Some (Some (wrap rr x))
+      | CTry =>
+          (* the fallible macros: is_valid (0 <= number && number <= max, compared in the source's
+             type), then the cast.  (The signed-source variant rejects negatives only and relies
+             on the source's non-negative range fitting; on such pairs the two coincide, on any
+             other pair the correspondence check shows the difference.) *)
           if Z.leb 0 x && Z.leb x dmax then Some (Some (wrap rr x)) else Some None
-      | TrySPN =>
-          (* impl_try_from_signed_primitive_to_newtype: only negative values are rejected; the
-             macro relies on the source's non-negative range fitting into the newtype *)
-          if Z.leb 0 x then Some (Some (wrap rr x)) else Some None
       end
   | _, _ => None
   end.
